@@ -52,6 +52,7 @@ type Env struct {
 	replays   map[string]interface{}
 	distinct  map[string]bool
 	hangs     int
+	nhang     int
 }
 
 func (e *Env) Thorough() bool { return e.Tier == "thorough" }
@@ -67,6 +68,30 @@ func (e *Env) Violate(key, desc string, replay interface{}) {
 	if len(e.rep.Violations) < 200 {
 		e.rep.Violations = append(e.rep.Violations, Violation{key, desc, replay})
 	}
+	// a call that does not return keeps its goroutine spinning for ever (it cannot be killed): after
+	// a few of them the run is cut short - the violations found so far are the result
+	if strings.Contains(strings.ToLower(key), "hang") {
+		e.nhang++
+		if e.nhang >= 3 {
+			e.finish()
+			os.Exit(0)
+		}
+	}
+}
+
+// finish writes the report, the replay table and the shard index.
+func (e *Env) finish() {
+	e.flushShard()
+	e.rep.Distinct = len(e.distinct)
+	b, _ := json.MarshalIndent(e.rep, "", " ")
+	if err := os.WriteFile(filepath.Join(e.OutDir, "report.json"), b, 0o644); err != nil {
+		panic(err)
+	}
+	rb, _ := json.Marshal(e.replays)
+	os.WriteFile(filepath.Join(e.OutDir, "cases.json"), rb, 0o644)
+	ib, _ := json.Marshal(e.allIDs)
+	os.WriteFile(filepath.Join(e.OutDir, "shard_ids.json"), ib, 0o644)
+	fmt.Printf("harness: %s evaluations=%d distinct=%d violations=%d shards=%d\n", e.rep.Property, e.rep.Evaluations, e.rep.Distinct, len(e.rep.Violations), len(e.rep.Shards))
 }
 
 func (e *Env) Sample(s interface{}) {
@@ -121,15 +146,5 @@ func main() {
 	}
 	e := &Env{Tier: *tier, Seed: *seed, OutDir: *out, Rng: NewRng(*seed), rep: &Report{Property: *prop}, perShard: 400, replays: map[string]interface{}{}}
 	f(e)
-	e.flushShard()
-	e.rep.Distinct = len(e.distinct)
-	b, _ := json.MarshalIndent(e.rep, "", " ")
-	if err := os.WriteFile(filepath.Join(*out, "report.json"), b, 0o644); err != nil {
-		panic(err)
-	}
-	rb, _ := json.Marshal(e.replays)
-	os.WriteFile(filepath.Join(*out, "cases.json"), rb, 0o644)
-	ib, _ := json.Marshal(e.allIDs)
-	os.WriteFile(filepath.Join(*out, "shard_ids.json"), ib, 0o644)
-	fmt.Printf("harness: %s evaluations=%d distinct=%d violations=%d shards=%d\n", *prop, e.rep.Evaluations, e.rep.Distinct, len(e.rep.Violations), len(e.rep.Shards))
+	e.finish()
 }
